@@ -25,6 +25,9 @@ def check(run):
     # an output closed by a rotation is a complete file only if nothing was dropped on the way into it (R06.2 imported)
     from . import C06 as _C06
     _C06.check_public_writes(run, rename={"R06.2": "R13.7", "R06.3": None})
+    # the file a rotation publishes is the file that was being written: scratch name = final name + .part (R15.1/R15.2 imported)
+    from . import C15 as _C15
+    _C15.check_names(_C06._Renamed(run, {"R15.1": "R13.8", "R15.2": "R13.8"}), "R15.1", "R15.2", only_names=True)
     facts = run.facts
     # ---------------- R13.1 (exporter): framing obligations are shared with C02
     C02.check_framing(run)
